@@ -76,13 +76,25 @@ Theorem get_accepted auto path ae : validate_path path = None ->
        match openat (path ++ DOT_GZ) with
        | OOpened ino false => (GNode ino true auto, [path ++ DOT_GZ])
        | OOpened _ true | ONotFound => plain [path ++ DOT_GZ]
-       | OError k => (GError k, [path ++ DOT_GZ])
+       | OError k => if k =? K_NAMETOOLONG then plain [path ++ DOT_GZ] else (GError k, [path ++ DOT_GZ])
        end
      else plain []).
 Proof.
   intros Hv. destruct (should_gzip_total ae) as [sg Hsg]. exists sg. split; [exact Hsg|].
   unfold fsdir_get. rewrite Hv, Hsg. cbn [bind]. destruct (auto && sg); [|reflexivity].
-  destruct (openat (path ++ DOT_GZ)) as [|k|ino [|]]; reflexivity.
+  destruct (openat (path ++ DOT_GZ)) as [|k|ino [|]]; try reflexivity. destruct (k =? K_NAMETOOLONG); reflexivity.
+Qed.
+
+(* whenever the path itself opens, get fails only if the sibling that would have been substituted is
+   there to be opened and fails (an error other than "not found" / "name too long") *)
+Theorem get_fails_only_for_sibling auto path ae k calls ino d : validate_path path = None ->
+  openat path = OOpened ino d -> get auto path ae = Ok (GError k, calls) ->
+  auto = true /\ should_gzip ae = Ok true /\ openat (path ++ DOT_GZ) = OError k /\ k <> K_NAMETOOLONG.
+Proof.
+  intros Hv Hp. unfold fsdir_get. rewrite Hv. destruct (should_gzip_total ae) as [sg Hsg]. rewrite Hsg. cbn [bind].
+  rewrite Hp. destruct auto, sg; cbn [andb]; try (intros HH; discriminate HH).
+  destruct (openat (path ++ DOT_GZ)) as [|k2|i [|]]; try (intros HH; discriminate HH).
+  destruct (N.eqb_spec k2 K_NAMETOOLONG) as [E|E]; intros HH; [discriminate HH|]. inversion HH; subst. auto.
 Qed.
 
 (* gzip is reported exactly when the .gz branch was taken; Vary exactly when auto_gzip is on *)
@@ -96,7 +108,9 @@ Proof.
   - destruct (openat (path ++ DOT_GZ)) as [|k|i [|]] eqn:Eg.
     + destruct (openat path) as [|k|i d]; intros HH; inversion HH; subst.
       split; [reflexivity|]. split; [split; [discriminate|intros E; first [apply (f_equal (@length bytes)) in E; simpl in E; discriminate | injection E as E'; apply (f_equal (@length N)) in E'; rewrite app_length in E'; simpl in E'; lia]]|discriminate].
-    + intros HH; inversion HH.
+    + destruct (k =? K_NAMETOOLONG); [|intros HH; inversion HH].
+      destruct (openat path) as [|k1|i d]; intros HH; inversion HH; subst.
+      split; [reflexivity|]. split; [split; [discriminate|intros E; first [apply (f_equal (@length bytes)) in E; simpl in E; discriminate | injection E as E'; apply (f_equal (@length N)) in E'; rewrite app_length in E'; simpl in E'; lia]]|discriminate].
     + destruct (openat path) as [|k|i2 d]; intros HH; inversion HH; subst.
       split; [reflexivity|]. split; [split; [discriminate|intros E; first [apply (f_equal (@length bytes)) in E; simpl in E; discriminate | injection E as E'; apply (f_equal (@length N)) in E'; rewrite app_length in E'; simpl in E'; lia]]|discriminate].
     + intros HH; inversion HH; subst. split; [reflexivity|]. split; [tauto|]. intros _. auto.
